@@ -10,8 +10,44 @@ THEOREMS = ["GmqttVerif.Broker.will_on_unregister",
             "GmqttVerif.Broker.will_cancelled_by_resume",
             "GmqttVerif.Broker.will_fires_once_sleep",
             "GmqttVerif.Broker.will_fires_once_terminate",
-            "GmqttVerif.Broker.will_content"]
+            "GmqttVerif.Broker.will_content",
+            # every schedule of the delayed-will goroutine against its client's connection events (Model/WillTimer.lean),
+            # tied to server/server.go by the regenerated facts (harness/cmd/extract/willtimer.go)
+            "GmqttVerif.WillTimer.no_orphan_will", "GmqttVerif.WillTimer.resume_cancels_pending_will",
+            "GmqttVerif.WillTimer.will_published_only_if_due", "GmqttVerif.WillTimer.will_published_at_most_once",
+            "GmqttVerif.WillTimer.no_pending_will_while_online", "GmqttVerif.WillTimer.as_is_orphans_will",
+            "GmqttVerif.WillTimer.as_is_resumed_will_published", "GmqttVerif.WillTimer.fixed_resumed_will_not_published",
+            "GmqttVerif.WillTimer.code_shape", "GmqttVerif.WillTimer.code_is_repaired",
+            "GmqttVerif.WillTimer.no_orphan_will_code", "GmqttVerif.WillTimer.will_published_only_if_due_code"]
+EXTRA_MODULES = ["GmqttVerif.Properties.C08Timer"]
+NEEDS_FACTS = True
 COMPS = ["broker"]
+
+def extra(r):
+    """the regenerated facts say what the delayed-will goroutine does with srv.willMessage. When it deletes the entry
+    unconditionally the theorems above no longer build; the failing history then is the F16 schedule, which the model
+    (`as_is_resumed_will_published`) and a widened-window run of the real code (findings/F16-*.md) both exhibit."""
+    import os, re
+    try:
+        facts = open(os.path.join(core.LEAN, "GmqttVerif", "Generated", "Facts.lean")).read()
+    except OSError:
+        return
+    m = re.search(r"def willGoroutineSteps : List String :=\s*\n\s*(\[.*\])", facts)
+    if m and "delete-unconditional" in m.group(1):
+        body = ("# the delayed-will goroutine of server/server.go (unregisterClient) removes srv.willMessage[clientID] unconditionally:\n"
+                "# on the schedule below a will is published although its session was resumed inside the Will Delay Interval\n"
+                "# (Model/WillTimer.lean, theorem as_is_resumed_will_published: published = [1], ended = [])\n"
+                "#   steps read from the source: " + m.group(1) + "\n"
+                "#stream will-timer-schedule\n"
+                "discWill      # connection 1 of client c ends, will 0 delayed\n"
+                "resume        # connection 2 resumes the session: will 0 is signalled `false`\n"
+                "wake 0        # goroutine 0 leaves the select, has not yet obtained srv.mu\n"
+                "discWill      # connection 2 ends, will 1 delayed: srv.willMessage[c] = will 1\n"
+                "finish 0      # goroutine 0 now runs its tail: delete(srv.willMessage, c) removes will 1's entry\n"
+                "resume        # connection 3 resumes inside the delay: finds no entry, cancels nothing\n"
+                "fire 1        # will 1's timer fires\n"
+                "finish 1      # will 1 is published\n")
+        r.violation("will-timer-f16", body, True, "delayed-will goroutine deletes another connection's will entry (schedule in the replay)")
 
 def gen_raised(rng):
     """family: the will delay is longer than the session expiry given at CONNECT, and the DISCONNECT (0x04, keeps the will)
